@@ -29,6 +29,7 @@ type Site struct {
 	Kind string
 	Func string
 	Text string
+	Type string
 }
 
 // Report is the result of instrumenting a tree.
@@ -58,7 +59,15 @@ type inst struct {
 	noShared   map[ast.Node]bool
 	names      map[string]int
 	sizes      types.Sizes
-	concTypes  map[*types.TypeName]bool
+	an         *analysis
+	concFile   bool
+}
+
+// analysis holds whole-module facts computed before any rewriting.
+type analysis struct {
+	decls  map[*types.Func]*ast.FuncDecl
+	infos  map[*types.Func]*types.Info
+	writes map[*types.Func]bool
 }
 
 // Run instruments every non-test Go file of every package below dir (a module root).
@@ -81,6 +90,7 @@ func Run(dir string) (*Report, error) {
 	rep := &Report{Counts: map[string]int{}, ModPath: modPath}
 	sort.Slice(pkgs, func(i, j int) bool { return pkgs[i].PkgPath < pkgs[j].PkgPath })
 	names := map[string]int{}
+	an := analyse(pkgs, modPath)
 	for _, p := range pkgs {
 		if len(p.Errors) > 0 {
 			return nil, fmt.Errorf("package %s: %v", p.PkgPath, p.Errors[0])
@@ -93,7 +103,7 @@ func Run(dir string) (*Report, error) {
 			continue
 		}
 		in := &inst{fset: p.Fset, pkg: p, info: p.TypesInfo, modPath: modPath, rep: rep, names: names,
-			sizes: types.SizesFor("gc", "amd64"), srcs: map[string][]byte{}}
+			sizes: types.SizesFor("gc", "amd64"), srcs: map[string][]byte{}, an: an}
 		for i, f := range p.Syntax {
 			fn := p.CompiledGoFiles[i]
 			if strings.HasSuffix(fn, "_test.go") {
@@ -196,6 +206,18 @@ func (in *inst) doFile(f *ast.File, fn string) error {
 	in.writeRoots = map[ast.Node]bool{}
 	in.noShared = map[ast.Node]bool{}
 
+	in.concFile = false
+	ast.Inspect(f, func(n ast.Node) bool {
+		switch x := n.(type) {
+		case *ast.GoStmt, *ast.SendStmt, *ast.SelectStmt:
+			in.concFile = true
+		case *ast.UnaryExpr:
+			if x.Op == token.ARROW {
+				in.concFile = true
+			}
+		}
+		return !in.concFile
+	})
 	for _, imp := range f.Imports {
 		if imp.Path.Value == `"C"` {
 			in.unsupported(imp.Pos(), "cgo is not modelled")
@@ -906,6 +928,9 @@ func (in *inst) callExpr(ce *ast.CallExpr, parent ast.Node) ast.Expr {
 	if !ok {
 		return nil
 	}
+	if _, isIface := named.Underlying().(*types.Interface); isIface {
+		return nil
+	}
 	tn := named.Obj().Name()
 	switch fn.Pkg().Path() {
 	case "sync/atomic":
@@ -951,6 +976,11 @@ func (in *inst) callExpr(ce *ast.CallExpr, parent ast.Node) ast.Expr {
 			if tn == "Cond" || tn == "RWMutex" {
 				in.unsupported(ce.Pos(), "sync."+tn+"."+fn.Name()+" is not modelled by the simulator")
 			}
+			if tn == "Pool" || tn == "Map" {
+				if ptr := in.recvPtr(se, sel); ptr != nil {
+					se.X = call(rt("SyncObj"), in.site("sync", ce), ptr)
+				}
+			}
 			return nil
 		}
 		ptr := in.recvPtr(se, sel)
@@ -961,7 +991,241 @@ func (in *inst) callExpr(ce *ast.CallExpr, parent ast.Node) ast.Expr {
 		args := append([]ast.Expr{in.site("sync", ce), ptr}, ce.Args...)
 		return call(rt(to), args...)
 	}
+	// method calls on objects that may be shared between goroutines: input to the race detector
+	known, write := in.an.methodClass(fn, named, in.modPath)
+	if !known {
+		return nil
+	}
+	lib := in.isLibPkg(fn.Pkg())
+	if lib && !in.concFile && !in.rootIsShared(se.X) {
+		return nil
+	}
+	if in.localValue(se.X) {
+		return nil
+	}
+	tv, ok := in.info.Types[se.X]
+	if !ok {
+		return nil
+	}
+	if _, isPtr := tv.Type.Underlying().(*types.Pointer); !isPtr && !tv.Addressable() {
+		return nil
+	}
+	ptr := in.recvPtr(se, sel)
+	if ptr == nil {
+		return nil
+	}
+	w := "false"
+	if write {
+		w = "true"
+	}
+	id := in.site("p", ce)
+	in.rep.Sites[len(in.rep.Sites)-1].Type = fn.Pkg().Name() + "." + tn + "." + fn.Name()
+	se.X = call(rt("P"), id, ptr, ast.NewIdent(w))
 	return nil
+}
+
+// rootIsShared reports whether the innermost identifier of e is a package-level variable.
+func (in *inst) rootIsShared(e ast.Expr) bool {
+	for {
+		switch x := e.(type) {
+		case *ast.ParenExpr:
+			e = x.X
+		case *ast.IndexExpr:
+			e = x.X
+		case *ast.StarExpr:
+			e = x.X
+		case *ast.SelectorExpr:
+			if id, ok := x.X.(*ast.Ident); ok {
+				if _, isPkg := in.info.Uses[id].(*types.PkgName); isPkg {
+					return in.sharedVar(x.Sel) != nil
+				}
+			}
+			e = x.X
+		case *ast.Ident:
+			return in.sharedVar(x) != nil
+		default:
+			return false
+		}
+	}
+}
+
+// localValue reports whether e is a plain local variable of non-pointer type (an object
+// that lives in this call frame).
+func (in *inst) localValue(e ast.Expr) bool {
+	id, ok := unparen(e).(*ast.Ident)
+	if !ok {
+		return false
+	}
+	v, ok := in.info.Uses[id].(*types.Var)
+	if !ok || v.Pkg() == nil || v.Parent() == v.Pkg().Scope() {
+		return false
+	}
+	_, isPtr := v.Type().Underlying().(*types.Pointer)
+	return !isPtr
+}
+
+func analyse(pkgs []*packages.Package, modPath string) *analysis {
+	an := &analysis{decls: map[*types.Func]*ast.FuncDecl{}, infos: map[*types.Func]*types.Info{}, writes: map[*types.Func]bool{}}
+	for _, p := range pkgs {
+		if p.PkgPath != modPath && !strings.HasPrefix(p.PkgPath, modPath+"/") {
+			continue
+		}
+		for _, f := range p.Syntax {
+			for _, d := range f.Decls {
+				fd, ok := d.(*ast.FuncDecl)
+				if !ok || fd.Recv == nil || fd.Body == nil {
+					continue
+				}
+				if fn, ok := p.TypesInfo.Defs[fd.Name].(*types.Func); ok {
+					an.decls[fn] = fd
+					an.infos[fn] = p.TypesInfo
+				}
+			}
+		}
+	}
+	// fixpoint: a pointer-receiver method writes if it assigns through its receiver or calls a writing method on it
+	for iter := 0; iter < 4; iter++ {
+		changed := false
+		for fn, fd := range an.decls {
+			if an.writes[fn] {
+				continue
+			}
+			if an.scanWrites(fn, fd, modPath) {
+				an.writes[fn] = true
+				changed = true
+			}
+		}
+		if !changed {
+			break
+		}
+	}
+	return an
+}
+
+func baseIdent(e ast.Expr) *ast.Ident {
+	for {
+		switch x := e.(type) {
+		case *ast.ParenExpr:
+			e = x.X
+		case *ast.IndexExpr:
+			e = x.X
+		case *ast.SliceExpr:
+			e = x.X
+		case *ast.StarExpr:
+			e = x.X
+		case *ast.SelectorExpr:
+			e = x.X
+		case *ast.Ident:
+			return x
+		default:
+			return nil
+		}
+	}
+}
+
+func (an *analysis) scanWrites(fn *types.Func, fd *ast.FuncDecl, modPath string) bool {
+	sig := fn.Type().(*types.Signature)
+	if sig.Recv() == nil {
+		return false
+	}
+	if _, ok := sig.Recv().Type().(*types.Pointer); !ok {
+		return false
+	}
+	if len(fd.Recv.List) == 0 || len(fd.Recv.List[0].Names) == 0 {
+		return false
+	}
+	info := an.infos[fn]
+	recvObj := info.Defs[fd.Recv.List[0].Names[0]]
+	if recvObj == nil {
+		return false
+	}
+	isRecv := func(e ast.Expr) bool {
+		id := baseIdent(e)
+		return id != nil && info.Uses[id] == recvObj
+	}
+	found := false
+	ast.Inspect(fd.Body, func(n ast.Node) bool {
+		if found {
+			return false
+		}
+		switch x := n.(type) {
+		case *ast.AssignStmt:
+			if x.Tok != token.DEFINE {
+				for _, l := range x.Lhs {
+					if _, plain := unparen(l).(*ast.Ident); !plain && isRecv(l) {
+						found = true
+					}
+				}
+			}
+		case *ast.IncDecStmt:
+			if _, plain := unparen(x.X).(*ast.Ident); !plain && isRecv(x.X) {
+				found = true
+			}
+		case *ast.CallExpr:
+			if id, ok := x.Fun.(*ast.Ident); ok && len(x.Args) > 0 {
+				if _, isB := info.Uses[id].(*types.Builtin); isB && (id.Name == "copy" || id.Name == "delete" || id.Name == "clear") && isRecv(x.Args[0]) {
+					found = true
+				}
+			}
+			se, ok := x.Fun.(*ast.SelectorExpr)
+			if !ok || !isRecv(se.X) {
+				return true
+			}
+			sel, ok := info.Selections[se]
+			if !ok || sel.Kind() != types.MethodVal {
+				return true
+			}
+			callee, ok := sel.Obj().(*types.Func)
+			if !ok || callee.Pkg() == nil {
+				return true
+			}
+			rt := callee.Type().(*types.Signature).Recv().Type()
+			if p, ok := rt.(*types.Pointer); ok {
+				rt = p.Elem()
+			}
+			if named, ok := rt.(*types.Named); ok {
+				if known, w := an.methodClass(callee, named, modPath); known && w {
+					found = true
+				}
+			}
+		}
+		return true
+	})
+	return found
+}
+
+// methodClass says whether a method is known to be read-only or mutating.
+func (an *analysis) methodClass(fn *types.Func, named *types.Named, modPath string) (known bool, write bool) {
+	pp := fn.Pkg().Path()
+	tn := named.Obj().Name()
+	sig := fn.Type().(*types.Signature)
+	_, ptrRecv := sig.Recv().Type().(*types.Pointer)
+	switch pp + "." + tn {
+	case "bytes.Buffer":
+		switch fn.Name() {
+		case "Bytes", "Len", "Cap", "String", "Available", "AvailableBuffer":
+			return true, false
+		}
+		return true, true
+	case "strings.Builder":
+		switch fn.Name() {
+		case "Len", "Cap", "String":
+			return true, false
+		}
+		return true, true
+	case "math/rand.Rand", "math/rand/v2.Rand", "bufio.Reader", "bufio.Writer", "bufio.Scanner", "bufio.ReadWriter":
+		return true, true
+	}
+	if pp == modPath || strings.HasPrefix(pp, modPath+"/") {
+		if !ptrRecv {
+			return true, false
+		}
+		if _, ok := an.decls[fn]; !ok {
+			return false, false
+		}
+		return true, an.writes[fn]
+	}
+	return false, false
 }
 
 // recvPtr builds an expression of pointer type denoting the receiver object of a method
@@ -1072,7 +1336,7 @@ func (r *Report) WriteSiteTable(path string) error {
 	var b bytes.Buffer
 	b.WriteString("// Code generated by verifgen. DO NOT EDIT.\n\npackage simrt\n\nfunc init() {\n\tInitSites([]SiteInfo{\n")
 	for _, s := range r.Sites {
-		fmt.Fprintf(&b, "\t\t{Name: %q, Pkg: %q, Kind: %q, Func: %q, Text: %q},\n", s.Name, s.Pkg, s.Kind, s.Func, s.Text)
+		fmt.Fprintf(&b, "\t\t{Name: %q, Pkg: %q, Kind: %q, Func: %q, Text: %q, Type: %q},\n", s.Name, s.Pkg, s.Kind, s.Func, s.Text, s.Type)
 	}
 	b.WriteString("\t})\n}\n")
 	return os.WriteFile(path, b.Bytes(), 0o644)
